@@ -341,30 +341,36 @@ def State.roots (σ : State S) : List Handle :=
       | .conv f b _ _ _ => [f, b])
   ++ σ.models.flatMap (fun p => match p.2.output with | some h => [h] | none => [])
 
+/-- one step of the liveness sweep: a live node marks its stored operands -/
+def State.markKids (σ : State S) (a : Array Bool) (i : Nat) : Array Bool :=
+  if a.getD i false then
+    match σ.nodes[i]? with
+    | some r => r.kids.foldl (fun (a : Array Bool) k => a.setIfInBounds k.node true) a
+    | none => a
+  else a
+
 /-- Live nodes: reachable from the roots through stored operands.  Stored operands always belong
     to older nodes, so one descending sweep suffices. -/
 def State.live (σ : State S) : Array Bool :=
   let n := σ.nodes.size
   let init : Array Bool := (σ.roots.foldl (fun (a : Array Bool) h => a.setIfInBounds h.node true)
     (Array.replicate n false))
-  (List.range n).reverse.foldl (fun (a : Array Bool) i =>
-    if a.getD i false then
-      match σ.nodes[i]? with
-      | some r => r.kids.foldl (fun (a : Array Bool) k => a.setIfInBounds k.node true) a
-      | none => a
-    else a) init
+  (List.range n).reverse.foldl σ.markKids init
+
+/-- what a live node `i` adds to the owner count of buffer `b`: its stored operands with that buffer,
+    plus the `sigmoid` closure's cached `Rc` of its own result -/
+def State.ownStep (σ : State S) (live : Array Bool) (b : Nat) (acc i : Nat) : Nat :=
+  if live.getD i false then
+    match σ.nodes[i]? with
+    | some r => acc + (r.kids.filter (·.buf == b)).length
+        + (match r.op with | some .sigmoid => if r.selfBuf == b then 1 else 0 | _ => 0)
+    | none => acc
+  else acc
 
 /-- Number of `Rc` owners of buffer `b`: root handles plus stored operands of live nodes, plus the
     `sigmoid` closure's cached `Rc` of its own result. -/
 def State.owners (σ : State S) (b : Nat) : Nat :=
-  let live := σ.live
   (σ.roots.filter (·.buf == b)).length
-  + (List.range σ.nodes.size).foldl (fun acc i =>
-      if live.getD i false then
-        match σ.nodes[i]? with
-        | some r => acc + (r.kids.filter (·.buf == b)).length
-            + (match r.op with | some .sigmoid => if r.selfBuf == b then 1 else 0 | _ => 0)
-        | none => acc
-      else acc) 0
+  + (List.range σ.nodes.size).foldl (σ.ownStep σ.live b) 0
 
 end Corgi
